@@ -517,10 +517,25 @@ let load_files dir name =
   | OutOfFuel -> print_endline "load bad:cycle"
   | IoErr -> print_endline "load bad:ioerr"
 
+(* String::from_utf8_lossy as modelled in Utf8.v: the same lines as `harness lossy` *)
+let lossy_file file =
+  let ic = open_in file in
+  (try
+     while true do
+       let t = String.trim (input_line ic) in
+       if t <> "" then begin
+         let b = if t = "-" then [] else List.init (String.length t / 2) (fun i -> n_of_int (hexval t.[2 * i] * 16 + hexval t.[2 * i + 1])) in
+         Printf.printf "%s %s\n" t (hex (lossy b))
+       end
+     done
+   with End_of_file -> ());
+  close_in ic
+
 let () =
   match Array.to_list Sys.argv with
   | [ _; "load"; dir; name ] -> load_files dir name
   | [ _; "rabuf"; file ] -> rabuf file
+  | [ _; "lossy"; file ] -> lossy_file file
   | _ :: "run" :: file :: rest ->
     (match rest with "--dump" :: d :: _ -> dumpdir := Some d | _ -> ());
     run_ops file
